@@ -280,20 +280,17 @@ def check_first_select(ctx) -> None:
             continue
         uids = code[1][1] if code[0] == b'APPENDUID' else code[1][2]
         arrivals.append((cmd.seq_invoke, cmd.seq_return, uids))
-    # files the delivery agent dropped into new/: their UIDs are learnt from
-    # a dump with bodies
+    # files the delivery agent dropped into new/: their UIDs are read from
+    # the folder's UID list by file name (not by content: a COPY of the
+    # delivered message back into INBOX carries the same bytes)
     dropped = [d for d in getattr(ctx.world, 'deliveries', ())
                if d['mailbox'] == 'INBOX' and d['subdir'] == 'new']
     if dropped:
-        from sim.engine import token_of
-        dump = ctx.probe('INBOX', body=True)
-        by_token = {}
-        for uid, rec in (dump['msgs'] if dump else {}).items():
-            by_token[token_of(bytes(rec['body'] or b''))] = uid
+        by_file = ctx.world.uid_by_file('INBOX')
         for d in dropped:
-            tok = token_of(d['data'].encode('latin-1'))
-            if tok in by_token:
-                arrivals.append((d['seq'], d['seq'], [by_token[tok]]))
+            uid = by_file.get(d['file'].split(':', 1)[0])
+            if uid is not None:
+                arrivals.append((d['seq'], d['seq'], [uid]))
                 ctx.stat('deliveries_judged')
     for a0, a1, uids in arrivals:
         if any(s['start_inv'] <= a1 and (s['end'] or end_of_time) >= a0
